@@ -37,3 +37,6 @@ Definition os_reg_GetParams (w : bsworld) := go_st_GetParams (bsw_store w).
 Definition os_reg_SetRecord (w : bsworld) (id : Z) (b : go_BeaconTimestamp) := lift_w w (go_st_SetBeaconTimestamp (bsw_store w) id b).
 Definition os_reg_DeleteRecord (w : bsworld) (id h : Z) := lift_w w (go_st_deleteBeaconTimestamp (bsw_store w) id h).
 Definition os_reg_GetRecord (w : bsworld) (id h : Z) := go_st_GetBeaconTimestampByID (bsw_store w) id h.
+(* genesis export (genesis.go): the listings *)
+Definition os_reg_GetAllEntities (w : bsworld) := go_st_GetAllBeacons (bsw_store w).
+Definition os_reg_GetRecordsForExport (w : bsworld) (id : Z) := go_st_GetAllBeaconTimestampsForExport (bsw_store w) id.
